@@ -30,22 +30,27 @@ theorem map_dropLast_close (cs : Contours) : (polyClipToPolygon cs).map List.dro
     simp only [polyClipToPolygon, List.map_cons, dropLast_closeRing, List.map_map] at ih ⊢
     rw [ih]
 
-/-- **C14 glue.** For `LineString` and `MultiLineString` receivers and `Polygon`, `MultiPolygon`,
+/-- one clipper call in CLIPLINE mode with the paths `s` as subject (`clip1 core l arg = clipS core [l] arg`;
+the pre-fix `MultiLineString.Clip` was `clipS core L.paths arg`) -/
+def clipS (core : ClipCore) (s : List Path) (arg : Operand) : List (List P) :=
+  (polyOp core .clipline s arg).map fun pp => pp.dropLast
+
+/-- (one clipper call with subject paths `s`) For `LineString` and `MultiLineString` receivers and `Polygon`, `MultiPolygon`,
 `*Bounds` arguments, `Clip` returns exactly the clipper's pieces (the artificial closing vertex added
 by `polyClipToPolygon` is the one removed again): nothing in the trivial cases, the sweep's pieces
 otherwise. -/
-theorem C14_glue (core : ClipCore) (L : Lines) (arg : Operand) :
-    clip core L arg =
-      if trivialCase L.paths (toContours arg) then [] else core.line L.paths (toContours arg) := by
-  have h1 : clipperOp .clipline L.paths (toContours arg) = .clipline := by simp [clipperOp]
-  have : clip core L arg = construct core .clipline L.paths (toContours arg) := by
-    simp only [clip, polyOp, h1]
+theorem glueS (core : ClipCore) (s : List Path) (arg : Operand) :
+    clipS core s arg =
+      if trivialCase s (toContours arg) then [] else core.line s (toContours arg) := by
+  have h1 : clipperOp .clipline s (toContours arg) = .clipline := by simp [clipperOp]
+  have : clipS core s arg = construct core .clipline s (toContours arg) := by
+    simp only [clipS, polyOp, h1]
     exact map_dropLast_close _
   rw [this]
   unfold construct trivialCase
-  by_cases e : (L.paths.isEmpty || (toContours arg).isEmpty) = true
+  by_cases e : (s.isEmpty || (toContours arg).isEmpty) = true
   · simp [e]
-  · by_cases o : overlaps (bbox L.paths) (bbox (toContours arg)) = true
+  · by_cases o : overlaps (bbox s) (bbox (toContours arg)) = true
     · simp [e, o]
     · simp [e, o]
 
@@ -104,11 +109,11 @@ theorem inBox_of_insideClosed (c : Contours) (p : P) (h : insideClosedC c p = tr
 /-- **C14 trivial cases.** If an operand is empty or the bounding boxes do not overlap, `Clip`
 returns no piece — and rightly so: no point of the line lies inside or on the polygon
 (box-disjointness implies set-disjointness). -/
-theorem C14_trivial (core : ClipCore) (L : Lines) (arg : Operand)
-    (h : trivialCase L.paths (toContours arg) = true) :
-    clip core L arg = [] ∧
-    ∀ p, ¬ (onPaths L.paths p = true ∧ insideClosedC (toContours arg) p = true) := by
-  refine ⟨by rw [C14_glue, h]; rfl, ?_⟩
+theorem trivialS (core : ClipCore) (s : List Path) (arg : Operand)
+    (h : trivialCase s (toContours arg) = true) :
+    clipS core s arg = [] ∧
+    ∀ p, ¬ (onPaths s p = true ∧ insideClosedC (toContours arg) p = true) := by
+  refine ⟨by rw [glueS, h]; rfl, ?_⟩
   rintro p ⟨h1, h2⟩
   obtain ⟨smn, smx, es, s1, s2, s3, s4⟩ := inBox_of_onPaths _ p h1
   obtain ⟨cmn, cmx, ec, c1, c2, c3, c4⟩ := inBox_of_insideClosed _ p h2
@@ -130,37 +135,37 @@ theorem onSeg_left (a b : P) : onSeg a b a = true := by
 /-- **C14, emptiness.** Under the CLIPLINE contract, for a simple line in general position w.r.t. a
 valid polygon: `Clip` returns no piece exactly when no point of the line lies inside or on the
 polygon. -/
-theorem C14_empty_iff (core : ClipCore) (hline : ClipLineSpec core.line) (L : Lines) (arg : Operand)
-    (hs : simplePaths L.paths = true) (hv : validC (toContours arg) = true)
-    (hg : gpLine L.paths (toContours arg) = true) :
-    clip core L arg = [] ↔
-      ∀ p, ¬ (onPaths L.paths p = true ∧ insideClosedC (toContours arg) p = true) := by
-  by_cases ht : trivialCase L.paths (toContours arg) = true
-  · have := C14_trivial core L arg ht
+theorem emptyS_iff (core : ClipCore) (hline : ClipLineSpec core.line) (s : List Path) (arg : Operand)
+    (hs : simplePaths s = true) (hv : validC (toContours arg) = true)
+    (hg : gpLine s (toContours arg) = true) :
+    clipS core s arg = [] ↔
+      ∀ p, ¬ (onPaths s p = true ∧ insideClosedC (toContours arg) p = true) := by
+  by_cases ht : trivialCase s (toContours arg) = true
+  · have := trivialS core s arg ht
     exact ⟨fun _ => this.2, fun _ => this.1⟩
-  · have hne : L.paths ≠ [] ∧ toContours arg ≠ [] ∧ overlaps (bbox L.paths) (bbox (toContours arg)) = true := by
+  · have hne : s ≠ [] ∧ toContours arg ≠ [] ∧ overlaps (bbox s) (bbox (toContours arg)) = true := by
       simp only [trivialCase, Bool.or_eq_true, not_or, Bool.not_eq_true, Bool.not_eq_eq_eq_not, Bool.not_not,
         Bool.not_false] at ht
       refine ⟨?_, ?_, ?_⟩
       · intro e; rw [e] at ht; simp at ht
       · intro e; rw [e] at ht; simp at ht
       · simpa using ht.2
-    obtain ⟨hlen, hpts⟩ := hline L.paths (toContours arg) hne.1 hne.2.1 hne.2.2 hs hv hg
-    rw [C14_glue]
+    obtain ⟨hlen, hpts⟩ := hline s (toContours arg) hne.1 hne.2.1 hne.2.2 hs hv hg
+    rw [glueS]
     simp only [ht, Bool.false_eq_true, if_false]
     constructor
     · intro he p hp
       have := (hpts p).2 hp
       rw [he] at this; simp [onPaths] at this
     · intro hall
-      cases hR : core.line L.paths (toContours arg) with
+      cases hR : core.line s (toContours arg) with
       | nil => rfl
       | cons piece rest =>
         exfalso
         have h2 : 2 ≤ piece.length := hlen piece (by rw [hR]; simp)
         match piece, h2 with
         | a :: b :: t, _ =>
-          have hon : onPaths (core.line L.paths (toContours arg)) a = true := by
+          have hon : onPaths (core.line s (toContours arg)) a = true := by
             rw [hR]
             simp [onPaths, onPath, pairs, onSeg_left]
           exact hall a ((hpts a).1 hon)
@@ -190,24 +195,24 @@ theorem onPath_of_mem (l : Path) (v : P) (hl : 2 ≤ l.length) (hv : v ∈ l) : 
 
 /-- **C14, clause 1.** Under the CLIPLINE contract (simple line, valid polygon, general position):
 every vertex of every returned piece lies on `L` and inside or on the boundary of `P`. -/
-theorem C14_vertices (core : ClipCore) (hline : ClipLineSpec core.line) (L : Lines) (arg : Operand)
-    (hs : simplePaths L.paths = true) (hv : validC (toContours arg) = true)
-    (hg : gpLine L.paths (toContours arg) = true) :
-    ∀ piece ∈ clip core L arg, ∀ v ∈ piece,
-      onPaths L.paths v = true ∧ insideClosedC (toContours arg) v = true := by
+theorem verticesS (core : ClipCore) (hline : ClipLineSpec core.line) (s : List Path) (arg : Operand)
+    (hs : simplePaths s = true) (hv : validC (toContours arg) = true)
+    (hg : gpLine s (toContours arg) = true) :
+    ∀ piece ∈ clipS core s arg, ∀ v ∈ piece,
+      onPaths s v = true ∧ insideClosedC (toContours arg) v = true := by
   intro piece hp v hvp
-  rw [C14_glue] at hp
-  by_cases ht : trivialCase L.paths (toContours arg) = true
+  rw [glueS] at hp
+  by_cases ht : trivialCase s (toContours arg) = true
   · simp [ht] at hp
   · simp only [ht, Bool.false_eq_true, if_false] at hp
-    have hne : L.paths ≠ [] ∧ toContours arg ≠ [] ∧ overlaps (bbox L.paths) (bbox (toContours arg)) = true := by
+    have hne : s ≠ [] ∧ toContours arg ≠ [] ∧ overlaps (bbox s) (bbox (toContours arg)) = true := by
       simp only [trivialCase, Bool.or_eq_true, not_or, Bool.not_eq_true, Bool.not_eq_eq_eq_not, Bool.not_not,
         Bool.not_false] at ht
       refine ⟨?_, ?_, ?_⟩
       · intro e; rw [e] at ht; simp at ht
       · intro e; rw [e] at ht; simp at ht
       · simpa using ht.2
-    obtain ⟨hlen, hpts⟩ := hline L.paths (toContours arg) hne.1 hne.2.1 hne.2.2 hs hv hg
+    obtain ⟨hlen, hpts⟩ := hline s (toContours arg) hne.1 hne.2.1 hne.2.2 hs hv hg
     apply (hpts v).1
     simp only [onPaths, List.any_eq_true]
     exact ⟨piece, hp, onPath_of_mem piece v (hlen piece hp) hvp⟩
@@ -215,28 +220,159 @@ theorem C14_vertices (core : ClipCore) (hline : ClipLineSpec core.line) (L : Lin
 /-- **C14, headline.** Under the CLIPLINE contract (simple line, valid polygon, general position), in
 every case — trivial ones included — the union of the returned pieces is, as a point set, exactly
 the part of `L` that lies inside or on `P`. -/
-theorem C14_exact (core : ClipCore) (hline : ClipLineSpec core.line) (L : Lines) (arg : Operand)
-    (hs : simplePaths L.paths = true) (hv : validC (toContours arg) = true)
-    (hg : gpLine L.paths (toContours arg) = true) (p : P) :
-    onPaths (clip core L arg) p = true ↔
-      (onPaths L.paths p = true ∧ insideClosedC (toContours arg) p = true) := by
-  by_cases ht : trivialCase L.paths (toContours arg) = true
-  · have := C14_trivial core L arg ht
+theorem exactS (core : ClipCore) (hline : ClipLineSpec core.line) (s : List Path) (arg : Operand)
+    (hs : simplePaths s = true) (hv : validC (toContours arg) = true)
+    (hg : gpLine s (toContours arg) = true) (p : P) :
+    onPaths (clipS core s arg) p = true ↔
+      (onPaths s p = true ∧ insideClosedC (toContours arg) p = true) := by
+  by_cases ht : trivialCase s (toContours arg) = true
+  · have := trivialS core s arg ht
     rw [this.1]
     constructor
     · intro h; simp [onPaths] at h
     · intro h; exact absurd h (this.2 p)
-  · have hne : L.paths ≠ [] ∧ toContours arg ≠ [] ∧ overlaps (bbox L.paths) (bbox (toContours arg)) = true := by
+  · have hne : s ≠ [] ∧ toContours arg ≠ [] ∧ overlaps (bbox s) (bbox (toContours arg)) = true := by
       simp only [trivialCase, Bool.or_eq_true, not_or, Bool.not_eq_true, Bool.not_eq_eq_eq_not, Bool.not_not,
         Bool.not_false] at ht
       refine ⟨?_, ?_, ?_⟩
       · intro e; rw [e] at ht; simp at ht
       · intro e; rw [e] at ht; simp at ht
       · simpa using ht.2
-    obtain ⟨_, hpts⟩ := hline L.paths (toContours arg) hne.1 hne.2.1 hne.2.2 hs hv hg
-    rw [C14_glue]
+    obtain ⟨_, hpts⟩ := hline s (toContours arg) hne.1 hne.2.1 hne.2.2 hs hv hg
+    rw [glueS]
     simp only [ht, Bool.false_eq_true, if_false]
     exact hpts p
+
+/-! ## `Clip` clips line by line (after /repo fix 9635cd6) -/
+
+theorem clip1_eq (core : ClipCore) (l : Path) (arg : Operand) : clip1 core l arg = clipS core [l] arg := rfl
+
+theorem clip_eq (core : ClipCore) (L : Lines) (arg : Operand) :
+    clip core L arg = L.paths.flatMap fun l => clipS core [l] arg := rfl
+
+theorem idxPairs_single {α : Type} (x : α) : idxPairs [x] = [] := by
+  simp [idxPairs, List.zipIdx]
+
+theorem simplePaths_single (s : List Path) (hs : simplePaths s = true) (l : Path) (hl : l ∈ s) :
+    simplePaths [l] = true := by
+  simp only [simplePaths, Bool.and_eq_true, List.all_eq_true] at hs
+  simp only [simplePaths, idxPairs_single, List.all_cons, List.all_nil, Bool.and_true]
+  exact hs.1 l hl
+
+theorem gpLine_single (s : List Path) (c : Contours) (hg : gpLine s c = true) (l : Path) (hl : l ∈ s) :
+    gpLine [l] c = true := by
+  simp only [gpLine, List.all_eq_true] at hg
+  simp only [gpLine, List.all_cons, List.all_nil, Bool.and_true, List.all_eq_true]
+  exact hg l hl
+
+theorem onPaths_single (l : Path) (p : P) : onPaths [l] p = onPath l p := by simp [onPaths]
+
+theorem onPaths_flatMap {α : Type} (xs : List α) (f : α → List Path) (p : P) :
+    onPaths (xs.flatMap f) p = true ↔ ∃ x ∈ xs, onPaths (f x) p = true := by
+  simp only [onPaths, List.any_eq_true, List.mem_flatMap]
+  constructor
+  · rintro ⟨l, ⟨x, hx, hl⟩, hp⟩; exact ⟨x, hx, l, hl, hp⟩
+  · rintro ⟨x, hx, l, hl, hp⟩; exact ⟨l, ⟨x, hx, hl⟩, hp⟩
+
+/-- **C14 glue.** For `LineString` and `MultiLineString` receivers and `Polygon`, `MultiPolygon`,
+`*Bounds` arguments, for every core: `Clip` returns, member line by member line, exactly the clipper's
+pieces (the closing vertex added by `polyClipToPolygon` is the one removed again): nothing for a
+member in the trivial cases, the sweep's pieces otherwise. -/
+theorem C14_glue (core : ClipCore) (L : Lines) (arg : Operand) :
+    clip core L arg = L.paths.flatMap fun l =>
+      if trivialCase [l] (toContours arg) then [] else core.line [l] (toContours arg) := by
+  rw [clip_eq]
+  congr 1
+  funext l
+  exact glueS core [l] arg
+
+/-- **C14 trivial cases.** If for every member line an operand is empty or the bounding boxes do not
+overlap, `Clip` returns no piece — rightly: no point of the line lies inside or on the polygon
+(box-disjointness implies set-disjointness). -/
+theorem C14_trivial (core : ClipCore) (L : Lines) (arg : Operand)
+    (h : ∀ l ∈ L.paths, trivialCase [l] (toContours arg) = true) :
+    clip core L arg = [] ∧
+    ∀ p, ¬ (onPaths L.paths p = true ∧ insideClosedC (toContours arg) p = true) := by
+  constructor
+  · rw [clip_eq, List.flatMap_eq_nil_iff]
+    intro l hl
+    exact (trivialS core [l] arg (h l hl)).1
+  · rintro p ⟨h1, h2⟩
+    simp only [onPaths, List.any_eq_true] at h1
+    obtain ⟨l, hl, hp⟩ := h1
+    exact (trivialS core [l] arg (h l hl)).2 p ⟨by rw [onPaths_single]; exact hp, h2⟩
+
+/-- **C14, headline.** Under the CLIPLINE contract (simple line or network of lines, valid polygon,
+general position), in every case — trivial ones included — the union of the returned pieces is, as a
+point set, exactly the part of `L` that lies inside or on `P`. -/
+theorem C14_exact (core : ClipCore) (hline : ClipLineSpec core.line) (L : Lines) (arg : Operand)
+    (hs : simplePaths L.paths = true) (hv : validC (toContours arg) = true)
+    (hg : gpLine L.paths (toContours arg) = true) (p : P) :
+    onPaths (clip core L arg) p = true ↔
+      (onPaths L.paths p = true ∧ insideClosedC (toContours arg) p = true) := by
+  rw [clip_eq, onPaths_flatMap]
+  constructor
+  · rintro ⟨l, hl, hp⟩
+    have := (exactS core hline [l] arg (simplePaths_single _ hs l hl) hv (gpLine_single _ _ hg l hl) p).1 hp
+    rw [onPaths_single] at this
+    refine ⟨?_, this.2⟩
+    simp only [onPaths, List.any_eq_true]
+    exact ⟨l, hl, this.1⟩
+  · rintro ⟨h1, h2⟩
+    simp only [onPaths, List.any_eq_true] at h1
+    obtain ⟨l, hl, hp⟩ := h1
+    exact ⟨l, hl, (exactS core hline [l] arg (simplePaths_single _ hs l hl) hv (gpLine_single _ _ hg l hl) p).2
+      ⟨by rw [onPaths_single]; exact hp, h2⟩⟩
+
+/-- **C14, clause 1.** Under the CLIPLINE contract: every vertex of every returned piece lies on `L`
+and inside or on the boundary of `P`. -/
+theorem C14_vertices (core : ClipCore) (hline : ClipLineSpec core.line) (L : Lines) (arg : Operand)
+    (hs : simplePaths L.paths = true) (hv : validC (toContours arg) = true)
+    (hg : gpLine L.paths (toContours arg) = true) :
+    ∀ piece ∈ clip core L arg, ∀ v ∈ piece,
+      onPaths L.paths v = true ∧ insideClosedC (toContours arg) v = true := by
+  intro piece hp v hvp
+  rw [clip_eq, List.mem_flatMap] at hp
+  obtain ⟨l, hl, hpl⟩ := hp
+  have := verticesS core hline [l] arg (simplePaths_single _ hs l hl) hv (gpLine_single _ _ hg l hl) piece hpl v hvp
+  rw [onPaths_single] at this
+  refine ⟨?_, this.2⟩
+  simp only [onPaths, List.any_eq_true]
+  exact ⟨l, hl, this.1⟩
+
+/-- **C14, emptiness.** Under the CLIPLINE contract: `Clip` returns no piece exactly when no point of
+the line lies inside or on the polygon. -/
+theorem C14_empty_iff (core : ClipCore) (hline : ClipLineSpec core.line) (L : Lines) (arg : Operand)
+    (hs : simplePaths L.paths = true) (hv : validC (toContours arg) = true)
+    (hg : gpLine L.paths (toContours arg) = true) :
+    clip core L arg = [] ↔
+      ∀ p, ¬ (onPaths L.paths p = true ∧ insideClosedC (toContours arg) p = true) := by
+  rw [clip_eq, List.flatMap_eq_nil_iff]
+  constructor
+  · rintro h p ⟨h1, h2⟩
+    simp only [onPaths, List.any_eq_true] at h1
+    obtain ⟨l, hl, hp⟩ := h1
+    exact (emptyS_iff core hline [l] arg (simplePaths_single _ hs l hl) hv (gpLine_single _ _ hg l hl)).1 (h l hl) p
+      ⟨by rw [onPaths_single]; exact hp, h2⟩
+  · intro h l hl
+    apply (emptyS_iff core hline [l] arg (simplePaths_single _ hs l hl) hv (gpLine_single _ _ hg l hl)).2
+    rintro p ⟨h1, h2⟩
+    rw [onPaths_single] at h1
+    refine h p ⟨?_, h2⟩
+    simp only [onPaths, List.any_eq_true]
+    exact ⟨l, hl, h1⟩
+
+/-- **The defect repaired by /repo commit 9635cd6, on the model of the pre-fix code** (all members in
+one clipper call, `clipS core L.paths arg`): a sweep that links the pieces of two routes between the
+same junctions into a ring and, as the real connector does, returns only open chains, returns
+nothing — although the contract for the two members taken one by one demands both routes.  Stated
+as: the pre-fix glue hands both members to ONE call, so its answer is whatever that single call
+returns (here `[]`), for every such core. -/
+theorem C14_together_defect (core : ClipCore) (a b : Path) (arg : Operand)
+    (hnt : trivialCase [a, b] (toContours arg) = false) (hdrop : core.line [a, b] (toContours arg) = []) :
+    clipTogether core (.multi [a, b]) arg = [] := by
+  show clipS core [a, b] arg = []
+  rw [glueS]; simp [hnt, hdrop]
 
 /-! ## the oracle is sound -/
 
@@ -349,6 +485,13 @@ reports exactly the interval between the two crossings -/
 example : simplePaths thru = true ∧ validC sqC = true ∧ gpLine thru sqC = true ∧
     trivialCase thru sqC = false ∧ oracleSeg sqC ⟨0, 2⟩ ⟨6, 2⟩ = [(1/12, 3/4)] ∧
     oracleChains sqC thru = [[⟨1/2, 2⟩, ⟨9/2, 2⟩]] := by decide +kernel
+
+/-- networks are inside the quantifier: two routes between the same junctions form a simple
+multi-line string (members meet at common end points only); members whose interiors cross do not -/
+example : simplePaths [[⟨2, 5⟩, ⟨5, 8⟩, ⟨8, 5⟩], [⟨2, 5⟩, ⟨5, 2⟩, ⟨8, 5⟩]] = true ∧
+    simplePaths [[⟨2, 5⟩, ⟨5, 8⟩, ⟨8, 5⟩], [⟨8, 5⟩, ⟨9, 9⟩]] = true ∧
+    simplePaths [[⟨2, 5⟩, ⟨8, 5⟩], [⟨5, 2⟩, ⟨5, 8⟩]] = false ∧
+    simplePaths [[⟨2, 5⟩, ⟨8, 5⟩], [⟨5, 5⟩, ⟨5, 8⟩]] = false := by decide +kernel
 
 /-- a box-disjoint case (hypothesis of `C14_trivial`) -/
 example : trivialCase [[⟨10, 10⟩, ⟨12, 11⟩]] sqC = true := by decide +kernel
